@@ -65,7 +65,7 @@ PLAN = {
     },
     "C03": {
         "level": "fault_enumeration",
-        "rule": "as C02 with bystander functions packed at 16-byte pitch between targets; every write/munmap event is judged; distinct = class tuples",
+        "rule": "as C02 with bystander functions packed between targets (16-byte pitch, or the tightest pitch the entry patch allows in a third of the layouts); every write/munmap event is judged; distinct = class tuples",
         "assumptions": [A_S, A_N],
         "parts": [s_part("S-histories", "C03", LINUX3, 24000, 2400000),
                   s_part("S-histories-windows-macos", "C03", "x86_64_windows,aarch64_windows,aarch64_macos,x86_64_macos", 800, 40000, selftest=40),
@@ -88,10 +88,11 @@ PLAN = {
     },
     "C08": {
         "level": "other",
-        "rule": "every arm of macro_rules! fake as parsed from src/interface/macros.rs at check time (52 in the pinned tree): one generated well-typed instantiation per arm (function kind x unit/non-unit x option subset; out-parameter observed by `returns`, per-call sequence number), compiled separately; 24 (quick) / 2000 (thorough) seeded call scripts per arm (N in 0..4, matching and non-matching calls) compared call by call with a reference model that also predicts process aborts for non-unwinding ABIs; distinct = (arm, N, calls, non-matching) tuples",
-        "assumptions": [A_N, "rustc accept/reject of the generated instantiation stands for 'a well-typed use'; the instantiation uses (a: u32, out: &mut u32 | *mut u32) [-> u32]"],
+        "rule": "every arm of macro_rules! fake as parsed from src/interface/macros.rs at check time (52 in the pinned tree): one generated well-typed instantiation per arm (function kind x unit/non-unit x option subset; out-parameter observed by `returns`, per-call sequence number), compiled separately; 24 (quick) / 2000 (thorough) seeded call scripts per arm (N in 0..4, matching and non-matching calls) compared call by call with a reference model that also predicts process aborts for non-unwinding ABIs; plus (engine T) every counted arm under exactly-N calls split over 2-4 threads of the deterministic scheduler: the budget must admit them all and the scope must end quietly; distinct = (arm, N, calls, non-matching) tuples",
+        "assumptions": [A_N, A_T, "rustc accept/reject of the generated instantiation stands for 'a well-typed use'; the instantiation uses (a: u32, out: &mut u32 | *mut u32) [-> u32]"],
         "exhaustive": True,
-        "parts": [{"name": "C-fake-macro-arms", "engine": "C", "py": "c08", "bin": "", "args": [], "build": ["injectorpp"], "count": {"quick": 1, "thorough": 1}}],
+        "parts": [{"name": "C-fake-macro-arms", "engine": "C", "py": "c08", "bin": "", "args": [], "build": ["injectorpp"], "count": {"quick": 1, "thorough": 1}},
+                  t_part("T-every-counted-arm-concurrently", "arms", "C08", 2800, 280000)],
     },
     "C09": {
         "level": "fault_enumeration",
